@@ -61,6 +61,9 @@ func newS(c *vh.Ctx, name string, o genx.Options, onGen func(p *genx.Peer)) *S {
 // finish closes everything, runs the oracles and writes the H line.
 func (s *S) finish() {
 	e := s.e
+	// let frames in flight land before closing, so that the final Close is not one more fault
+	// injection (those are the scenarios' job)
+	e.WaitSettled(500 * time.Millisecond)
 	done := make(chan struct{})
 	go func() { _ = e.Conn.Close(); close(done) }()
 	select {
